@@ -22,13 +22,14 @@ type IterCtx struct {
 	closing   bool
 	owned     bool
 
-	view     map[string]MObj     // replay of everything delivered so far
-	delSeen  map[string][]uint64 // delivered deletions per primary key
-	lastRev  uint64
-	lastIdx  int // chain index of the last snapshot passed to Next (monotone)
-	refIdx   int // chain index of the snapshot of the last refresh (a Next that reported pending changes, or creation)
-	nexts    int
-	caughtUp bool // the last Next returned an open channel
+	view      map[string]MObj     // replay of everything delivered so far
+	delSeen   map[string][]uint64 // delivered deletions per primary key
+	lastRev   uint64
+	lastIdx   int // chain index of the last snapshot passed to Next (monotone)
+	refIdx    int // chain index of the snapshot of the last refresh (a Next that reported pending changes, or creation)
+	nexts     int
+	caughtUp  bool // the last Next returned an open channel
+	consuming bool // a consumer is inside the sequence returned by Next (a deletion may be marked as handed an instant before the consumer's callback sees it)
 }
 
 // createIterator calls Changes() inside the write transaction.
@@ -144,7 +145,10 @@ func (w *World) nextOn(ic *IterCtx, txn statedb.ReadTxn, X *TableState, limit in
 			return true
 		})
 	}
-	if !w.guard("C07", "consuming changes", consume) || failed {
+	ic.consuming = true
+	okc := w.guard("C07", "consuming changes", consume)
+	ic.consuming = false
+	if !okc || failed {
 		return nil, false
 	}
 	w.S.Logf("I%d Next(%s v%d) pending=%v delivered=%d full=%v", ic.id, what, X.Idx, pending, n, full)
@@ -445,7 +449,7 @@ func (w *World) checkGraveyardBound(prop string, rtxn statedb.ReadTxn, ti int, s
 	var example string
 	for id, d := range st.Dead {
 		for _, ic := range w.iters {
-			if ic.ti != ti || !ic.live || ic.closing || ic.closed || ic.createIdx > d.Commit || d.Lo < ic.createRev {
+			if ic.ti != ti || !ic.live || ic.closing || ic.closed || ic.consuming || ic.createIdx > d.Commit || d.Lo < ic.createRev {
 				continue
 			}
 			handed := false
@@ -463,6 +467,12 @@ func (w *World) checkGraveyardBound(prop string, rtxn statedb.ReadTxn, ti int, s
 	}
 	var got int
 	if !w.guard(prop, "graveyard length", func() { got = statedb.VerifGraveyardLen(rtxn, tc.T) }) {
+		return false
+	}
+	// only deleted objects are retained: never more than there are deleted keys
+	if got > len(st.Dead) {
+		w.violate("C08", "graveyard-too-large", "table %s version %d retains %d deleted objects although only %d keys are currently deleted: an object that is live again is still retained",
+			tc.M.Name, st.Idx, got, len(st.Dead))
 		return false
 	}
 	if got < need {
